@@ -207,6 +207,13 @@ class SymbolicExpression(Generic[T], ABC):
     def _add_conclusion_(self, conclusion: Conclusion):
         self._conclusion_.add(conclusion)
 
+    def _reset_evaluation_state_(self) -> None:
+        """
+        Forget what this expression remembered during a previous evaluation of the query it belongs to.
+        Expressions that keep such a memory (e.g. the conclusion selectors of a rule tree) override this.
+        """
+        pass
+
     @lru_cache(maxsize=None)
     def _projection_(self, when_true: Optional[bool] = True) -> HashedIterable[int]:
         """
@@ -508,6 +515,8 @@ class ResultQuantifier(CanBehaveLikeAVariable[T], ABC):
         This is the exposed evaluation method for users.
         """
         SymbolGraph().remove_dead_instances()
+        for expression in self._all_nodes_:
+            expression._reset_evaluation_state_()
         yield from map(self._process_result_, self._evaluate__())
 
     def _evaluate__(
